@@ -9,7 +9,7 @@
  * embedded factorization events against SluPipeTrace.
  *
  * usage: drv_api script out.ndjson [timeout_s]
- * commands: ienv, mat, vals, permc, gssv, gssvx, destroy, fail, track, perturb, log
+ * commands: ienv, mat, vals, permc, gssv, gssvx, destroy, sinit, sfactor, ssolve, scon, sdropac, sfinal, fail, track, perturb, log
  */
 #define _GNU_SOURCE
 #include "prec.h"
@@ -50,6 +50,8 @@ static struct {
     equed_t equed; REAL *R, *C; int factver;   /* version and scaling the factors belong to */
     void *work; long lwork; char *workbase;
     superlumt_options_t opt;
+    /* the computational routines used as in EXAMPLE/pdrepeat.c: a "session" p?gstrf_init .. p?gstrf .. ?gstrs .. pxgstrf_finalize */
+    superlumt_options_t sopt; SuperMatrix AC; int ses_sym, ses_ac, ses_armed, ses_refact, ses_usepr, ses_P; long ses_lwork;
 } S;
 
 static unsigned long cks_perm(const int_t *p, int n) { return p ? fnv(p, sizeof(int_t) * n) : 0; }
@@ -74,6 +76,9 @@ static void cmd_mat(kv_t *K)
     R.s = (unsigned long) kv_i(K, "seed", 1) * 7919ul + 17;
     if (S.have) {   /* drop the previous system */
 	destroy_LU();
+	if (S.ses_ac) { Destroy_CompCol_Permuted(&S.AC); S.ses_ac = 0; }
+	if (S.ses_sym) { SUPERLU_FREE(S.sopt.etree); SUPERLU_FREE(S.sopt.colcnt_h); SUPERLU_FREE(S.sopt.part_super_h); S.ses_sym = 0; }
+	S.ses_armed = 0;
 	SUPERLU_FREE(S.val); SUPERLU_FREE(S.ind); SUPERLU_FREE(S.ptr); free(S.val0); free(S.pat); free(S.Ad); S.Ad = 0;
 	Destroy_SuperMatrix_Store(&S.A);
 	SUPERLU_FREE(S.perm_c); SUPERLU_FREE(S.perm_r); SUPERLU_FREE(S.etree); SUPERLU_FREE(S.colcnt); SUPERLU_FREE(S.part); free(S.R); free(S.C);
@@ -512,6 +517,178 @@ static void cmd_gssvx(kv_t *K)
     Destroy_SuperMatrix_Store(&B); Destroy_SuperMatrix_Store(&X); SUPERLU_FREE(b); SUPERLU_FREE(x); free(bin); free(vin); free(Xtrue); free(B0); free(ferr); free(berr);
 }
 
+
+/* ------------------------------------------------------------------ the computational routines (sessions) */
+static unsigned long cks_A(void) { return fnv(S.val, sizeof(SCALAR) * S.nnz) ^ (fnv(S.ind, sizeof(int_t) * S.nnz) * 31) ^ (fnv(S.ptr, sizeof(int_t) * (S.n + 1)) * 131); }
+static unsigned long cks_LU(void)
+{
+    SCPformat *Ls; NCPformat *Us; unsigned long h = 7; int n = S.n, j;
+    if (!S.haveLU) return 0;
+    Ls = (SCPformat *) S.L.Store; Us = (NCPformat *) S.U.Store;
+    for (j = 0; j < n; ++j) {
+	h = h * 31 + fnv((SCALAR *) Ls->nzval + Ls->nzval_colbeg[j], sizeof(SCALAR) * (Ls->nzval_colend[j] - Ls->nzval_colbeg[j]));
+	h = h * 31 + fnv((SCALAR *) Us->nzval + Us->colbeg[j], sizeof(SCALAR) * (Us->colend[j] - Us->colbeg[j]));
+	h = h * 31 + fnv(Us->rowind + Us->colbeg[j], sizeof(int_t) * (Us->colend[j] - Us->colbeg[j]));
+    }
+    for (j = 0; j <= Ls->nsuper; ++j) { int f = Ls->sup_to_colbeg[j]; h = h * 31 + fnv(Ls->rowind + Ls->rowind_colbeg[f], sizeof(int_t) * (Ls->rowind_colend[f] - Ls->rowind_colbeg[f])); }
+    return h;
+}
+/* p?gstrf_init: options + AC = A*Pc (a view) + postordered etree (first time) */
+static void cmd_sinit(kv_t *K)
+{
+    int P = (int) kv_i(K, "P", 1), refact = (int) kv_i(K, "refact", 0), usepr = (int) kv_i(K, "usepr", 0), n = S.n, j, k;
+    long lwork = kv_i(K, "lwork", 0); double u = kv_d(K, "u", 1.0);
+    Gstat_t Gstat; int_t *pc_in = intMalloc(n), *pr_in = intMalloc(n); unsigned long ckA; long live0, live1;
+    int acok = 1, etpost = 1, postonly = 1, permunch;
+    if (lwork > WORKMAX) lwork = WORKMAX;
+    restore_values();
+    memcpy(pc_in, S.perm_c, sizeof(int_t) * n); memcpy(pr_in, S.perm_r, sizeof(int_t) * n);
+    StatAlloc(n, P, sp_ienv(1), sp_ienv(2), &Gstat); StatInit(n, P, &Gstat);
+    ckA = cks_A(); vrt_xerbla_reset();
+    live0 = vrt_mem_live_count();
+    vrt_log_raw("\"e\":\"CallBegin\",\"call\":\"sinit\"");
+    vrt_mem_scope(1);
+    PG(gstrf_init)(P, DOFACT, NOTRANS, refact ? YES : NO, sp_ienv(1), sp_ienv(2), (REAL) u, usepr ? YES : NO, 0.0, S.perm_c, S.perm_r,
+		   lwork > 0 ? S.work : 0, lwork, &S.A, &S.AC, &S.sopt, &Gstat);
+    vrt_mem_scope(0);
+    live1 = vrt_mem_live_count();
+    S.ses_sym = 1; S.ses_ac = 1; S.ses_armed = 1; S.ses_refact = refact; S.ses_usepr = usepr; S.ses_P = P; S.ses_lwork = lwork;
+    if (lwork > 0) S.lwork = lwork;
+    {   /* AC is the view A*Pc: column perm_c[j] of AC is column j of A, sharing A's arrays */
+	NCPformat *ac = (NCPformat *) S.AC.Store; NCformat *a = (NCformat *) S.A.Store;
+	if (S.AC.Stype != SLU_NCP || S.AC.nrow != n || S.AC.ncol != n || ac->nzval != a->nzval || ac->rowind != a->rowind || ac->nnz != a->nnz) acok = 0;
+	for (j = 0; j < n && acok; ++j) if (ac->colbeg[S.perm_c[j]] != a->colptr[j] || ac->colend[S.perm_c[j]] != a->colptr[j + 1]) acok = 0;
+    }
+    permunch = !memcmp(pc_in, S.perm_c, sizeof(int_t) * n);
+    if (is_perm(S.perm_c, n)) {
+	/* the caller's ordering changed only by a postorder: post = perm_c_out o inverse(perm_c_in) maps every subtree of the etree of
+	   A*Pc_in onto a contiguous range; what is checked here: the returned etree is postordered (parent > child) and is the column
+	   etree of A*Pc_out up to the relabelling (checked by C10 on the records of sp_colorder); first-time only */
+	for (j = 0; j < n; ++j) if (!(S.sopt.etree[j] > j && S.sopt.etree[j] <= n)) etpost = 0;
+	if (refact && !permunch) postonly = 0;
+	if (!refact) {   /* descendants of every vertex are contiguous: first descendant = j - size + 1 */
+	    int_t *sz = intMalloc(n + 1); for (j = 0; j <= n; ++j) sz[j] = 1;
+	    for (j = 0; j < n && etpost; ++j) { k = S.sopt.etree[j]; if (k < n) sz[k] += sz[j]; }
+	    for (j = 0; j < n && etpost; ++j) { k = S.sopt.etree[j]; if (k < n && !(j >= k - sz[k] + 1)) postonly = 0; }
+	    SUPERLU_FREE(sz);
+	}
+    } else postonly = 0;
+    vrt_log_raw("\"e\":\"Call\",\"call\":\"sinit\",\"P\":%d,\"n\":%d,\"refact\":%d,\"usepr\":%d,\"lwmode\":%d,\"ver\":%d,\"xerbla\":%d,\"Aunch\":%d,\"permc\":%d,"
+		"\"permcunch\":%d,\"permrunch\":%d,\"acok\":%d,\"etpost\":%d,\"postonly\":%d,\"dlive\":%ld,\"optsok\":%d",
+		P, n, refact, usepr, lwork > 0 ? 1 : 0, S.ver, vrt_xerbla_count, ckA == cks_A(), is_perm(S.perm_c, n), permunch,
+		!memcmp(pr_in, S.perm_r, sizeof(int_t) * n), acok, etpost, postonly, live1 - live0,
+		S.sopt.nprocs == P && S.sopt.refact == (refact ? YES : NO) && S.sopt.usepr == (usepr ? YES : NO) && S.sopt.perm_c == S.perm_c && S.sopt.perm_r == S.perm_r
+		&& S.sopt.lwork == lwork && S.sopt.panel_size == sp_ienv(1) && S.sopt.relax == sp_ienv(2));
+    StatFree(&Gstat); SUPERLU_FREE(pc_in); SUPERLU_FREE(pr_in);
+}
+/* p?gstrf on the options and the AC of the session */
+static void cmd_sfactor(kv_t *K)
+{
+    int n = S.n, P = S.ses_P; int_t info = -99; Gstat_t Gstat; unsigned long ckA, ckpc; long live0, live1; int thr0, thr1;
+    int_t *pr_in = intMalloc(n); long recon = -1, maxl = -1; int extract = -1, inside = -1;
+    (void) K;
+    memcpy(pr_in, S.perm_r, sizeof(int_t) * n);
+    StatAlloc(n, P, sp_ienv(1), sp_ienv(2), &Gstat); StatInit(n, P, &Gstat);
+    ckA = cks_A(); ckpc = cks_perm(S.perm_c, n); vrt_xerbla_reset();
+    live0 = vrt_mem_live_count(); thr0 = vrt_thread_count();
+    vrt_log_raw("\"e\":\"CallBegin\",\"call\":\"sfactor\"");
+    vrt_mem_scope(1);
+    PG(gstrf)(&S.sopt, &S.AC, S.perm_r, &S.L, &S.U, &Gstat, &info);
+    vrt_mem_scope(0);
+    thr1 = vrt_thread_count_until(thr0); live1 = vrt_mem_live_count();
+    if (info >= 0 && info <= n) { S.haveLU = 1; S.LUuser = S.ses_lwork > 0; S.factver = S.ver; S.equed = NOEQUIL; }
+    S.ses_armed = 0;
+    if (info == 0) {
+	lc *Ld = lc_zeros((long) n * n), *Ud = lc_zeros((long) n * n);
+	extract = extract_LU(&S.L, &S.U, n, Ld, Ud);
+	if (!extract && is_perm(S.perm_r, n) && is_perm(S.perm_c, n)) {
+	    long double ml = 0, rr = recon_ratio(n, S.Ad, S.perm_r, S.perm_c, Ld, Ud, BOUND_U, &ml);
+	    recon = permille(rr); maxl = permille(ml / (IS_COMPLEX ? 1.41421356237309504880L * (1.0L + 1e-12L) : 1.0L));
+	}
+	free(Ld); free(Ud);
+    }
+    if (S.haveLU && S.LUuser) inside = ((char *) ((SCPformat *) S.L.Store)->nzval >= (char *) S.work && (char *) ((SCPformat *) S.L.Store)->nzval < (char *) S.work + S.lwork);
+    vrt_log_raw("\"e\":\"Call\",\"call\":\"sfactor\",\"P\":%d,\"n\":%d,\"refact\":%d,\"usepr\":%d,\"lwmode\":%d,\"ver\":%d,\"info\":%ld,\"xerbla\":%d,\"Aunch\":%d,"
+		"\"permcunch\":%d,\"permrunch\":%d,\"permr\":%d,\"extract\":%d,\"recon\":%ld,\"maxl\":%ld,\"inside\":%d,\"guard\":%d,\"thr0\":%d,\"thr1\":%d,\"live0\":%ld,\"live1\":%ld,"
+		"\"useprkept\":%d,\"u1000\":%d",
+		P, n, S.ses_refact, S.ses_usepr, S.ses_lwork > 0 ? 1 : 0, S.ver, (long) info, vrt_xerbla_count, ckA == cks_A(), ckpc == cks_perm(S.perm_c, n),
+		!memcmp(pr_in, S.perm_r, sizeof(int_t) * n), (info >= 0 && info <= n) ? is_perm(S.perm_r, n) : -1, extract, recon, maxl, inside, guards_ok(S.ses_lwork),
+		thr0, thr1, live0, live1, S.sopt.usepr == YES, (int) (S.sopt.diag_pivot_thresh * 1000));
+    StatFree(&Gstat); SUPERLU_FREE(pr_in);
+}
+/* ?gstrs with the factors at hand: op(A) X = B, B overwritten */
+static void cmd_ssolve(kv_t *K)
+{
+    int n = S.n, nrhs = (int) kv_i(K, "nrhs", 1), ldb = n + (int) kv_i(K, "pad", 0), i, c; const char *trs = kv_s(K, "trans", "N");
+    int op = trs[0] == 'T' ? 1 : trs[0] == 'C' ? 2 : 0; SCALAR *b; lc *Xtrue, *B0; SuperMatrix B; int_t info = -99; Gstat_t Gstat;
+    unsigned long ckA, ckLU, ckpr, ckpc; long live0, live1, resid = -1; int thr0, thr1;
+    make_rhs(nrhs, ldb, op, (unsigned long) kv_i(K, "seed", 1), &b, &Xtrue, &B0);
+    G(Create_Dense_Matrix)(&B, n, nrhs, b, ldb, SLU_DN, SLU_DT, SLU_GE);
+    StatAlloc(n, 1, sp_ienv(1), sp_ienv(2), &Gstat); StatInit(n, 1, &Gstat);
+    ckA = cks_A(); ckLU = cks_LU(); ckpr = cks_perm(S.perm_r, n); ckpc = cks_perm(S.perm_c, n); vrt_xerbla_reset();
+    live0 = vrt_mem_live_count(); thr0 = vrt_thread_count();
+    vrt_log_raw("\"e\":\"CallBegin\",\"call\":\"ssolve\"");
+    vrt_mem_scope(1);
+    G(gstrs)(tr_of(trs), &S.L, &S.U, S.perm_r, S.perm_c, &B, &Gstat, &info);
+    vrt_mem_scope(0);
+    thr1 = vrt_thread_count_until(thr0); live1 = vrt_mem_live_count();
+    if (info == 0 && nrhs > 0) {
+	lc *Ld = lc_zeros((long) n * n), *Ud = lc_zeros((long) n * n);
+	if (!extract_LU(&S.L, &S.U, n, Ld, Ud) && is_perm(S.perm_r, n) && is_perm(S.perm_c, n)) {
+	    lc *W = bound_matrix(n, S.perm_r, S.perm_c, Ld, Ud), *Xd = lc_zeros((long) n * nrhs);
+	    for (c = 0; c < nrhs; ++c) for (i = 0; i < n; ++i) Xd[i + (long) c * n] = to_lc(b[i + (long) c * ldb]);
+	    resid = permille(resid_ratio(n, nrhs, S.Ad, op, W, Xd, B0, 3 * n, BOUND_U));
+	    free(W); free(Xd);
+	}
+	free(Ld); free(Ud);
+    }
+    vrt_log_raw("\"e\":\"Call\",\"call\":\"ssolve\",\"n\":%d,\"trans\":\"%c\",\"nrhs\":%d,\"pad\":%d,\"ver\":%d,\"factver\":%d,\"info\":%ld,\"xerbla\":%d,\"Aunch\":%d,\"Lunch\":%d,"
+		"\"permunch\":%d,\"padok\":%d,\"resid\":%ld,\"thr0\":%d,\"thr1\":%d,\"live0\":%ld,\"live1\":%ld",
+		n, trs[0], nrhs, ldb - n, S.ver, S.factver, (long) info, vrt_xerbla_count, ckA == cks_A(), ckLU == cks_LU(),
+		ckpr == cks_perm(S.perm_r, n) && ckpc == cks_perm(S.perm_c, n), padding_ok(b, nrhs, ldb), resid, thr0, thr1, live0, live1);
+    StatFree(&Gstat); Destroy_SuperMatrix_Store(&B); SUPERLU_FREE(b); free(Xtrue); free(B0);
+}
+/* ?gscon on the factors at hand: 1/(||A|| ||inv(A)||) <= rcond <= 1/(||A|| ||inv(A) e/n||) in the requested norm */
+static void cmd_scon(kv_t *K)
+{
+    int n = S.n, i, j, nrm1 = kv_s(K, "norm", "1")[0] != 'I'; REAL rcond = -1, anorm; int_t info = -99; long rc_lo = -1, rc_hi = -1, live0, live1; unsigned long ckLU;
+    lc *Inv = ref_inverse(n, S.Ad); long double an = nrm1 ? norm1(n, S.Ad) : norminf(n, S.Ad);
+    anorm = (REAL) an; ckLU = cks_LU(); vrt_xerbla_reset();
+    live0 = vrt_mem_live_count();
+    vrt_log_raw("\"e\":\"CallBegin\",\"call\":\"scon\"");
+    vrt_mem_scope(1);
+    G(gscon)(nrm1 ? "1" : "I", &S.L, &S.U, anorm, &rcond, &info);
+    vrt_mem_scope(0);
+    live1 = vrt_mem_live_count();
+    if (Inv && info == 0) {
+	long double ain = nrm1 ? norm1(n, Inv) : norminf(n, Inv), ae = 0, kap = an * ain;
+	for (i = 0; i < n; ++i) { lc acc = 0; for (j = 0; j < n; ++j) acc += (nrm1 ? Inv[i + (long) j * n] : Inv[j + (long) i * n]) / (long double) n; ae += cabsl(acc); }
+	if (rcond > 0) { rc_lo = permille((1.0L / kap) / (long double) rcond); rc_hi = permille((long double) rcond * an * ae); }
+	else { rc_lo = (1.0L / kap) <= 2 * UNIT_ROUNDOFF ? 0 : RATIO_CAP; rc_hi = 0; }
+	if (kap > 1e7L / (IS_COMPLEX || sizeof(REAL) == 4 ? 1e3L : 1.0L)) { rc_lo = rc_hi = -2; }   /* outside the claim: the factors themselves carry the error */
+    }
+    vrt_log_raw("\"e\":\"Call\",\"call\":\"scon\",\"n\":%d,\"norm\":\"%c\",\"ver\":%d,\"info\":%ld,\"xerbla\":%d,\"Lunch\":%d,\"rclo\":%ld,\"rchi\":%ld,\"live0\":%ld,\"live1\":%ld",
+		n, nrm1 ? '1' : 'I', S.ver, (long) info, vrt_xerbla_count, ckLU == cks_LU(), rc_lo, rc_hi, live0, live1);
+    free(Inv);
+}
+/* Destroy_CompCol_Permuted(&AC) between two factorizations of a session, as EXAMPLE/pdrepeat.c does */
+static void cmd_sdropac(kv_t *K)
+{
+    long live0 = vrt_mem_live_count(); (void) K;
+    if (S.ses_ac) { Destroy_CompCol_Permuted(&S.AC); S.ses_ac = 0; }
+    S.ses_armed = 0;
+    vrt_log_raw("\"e\":\"Call\",\"call\":\"sdropac\",\"dlive\":%ld", vrt_mem_live_count() - live0);
+}
+/* pxgstrf_finalize (or, when the AC is already gone, the caller frees the three arrays) */
+static void cmd_sfinal(kv_t *K)
+{
+    long live0 = vrt_mem_live_count(); int viafin = S.ses_ac; (void) K;
+    if (S.ses_ac) pxgstrf_finalize(&S.sopt, &S.AC);
+    else if (S.ses_sym) { SUPERLU_FREE(S.sopt.etree); SUPERLU_FREE(S.sopt.colcnt_h); SUPERLU_FREE(S.sopt.part_super_h); }
+    S.ses_ac = S.ses_sym = S.ses_armed = 0;
+    vrt_log_raw("\"e\":\"Call\",\"call\":\"sfinal\",\"viafin\":%d,\"dlive\":%ld", viafin, vrt_mem_live_count() - live0);
+}
+
 static void cmd_destroy(kv_t *K)
 {
     long live0 = vrt_mem_live_count();
@@ -545,6 +722,12 @@ static int run_script(const char *path, const char *out)
 	else if (!strcmp(K.k[0], "gssv")) cmd_gssv(&K);
 	else if (!strcmp(K.k[0], "gssvx")) cmd_gssvx(&K);
 	else if (!strcmp(K.k[0], "destroy")) cmd_destroy(&K);
+	else if (!strcmp(K.k[0], "sinit")) cmd_sinit(&K);
+	else if (!strcmp(K.k[0], "sfactor")) cmd_sfactor(&K);
+	else if (!strcmp(K.k[0], "ssolve")) cmd_ssolve(&K);
+	else if (!strcmp(K.k[0], "scon")) cmd_scon(&K);
+	else if (!strcmp(K.k[0], "sdropac")) cmd_sdropac(&K);
+	else if (!strcmp(K.k[0], "sfinal")) cmd_sfinal(&K);
 	else if (!strcmp(K.k[0], "perturb")) vrt_perturb((int) kv_i(&K, "pct", 0), (unsigned) kv_i(&K, "seed", 1));
 	else if (!strcmp(K.k[0], "track")) { vrt_mem_track((int) kv_i(&K, "on", 1)); }
 	else if (!strcmp(K.k[0], "fail")) vrt_mem_arm(kv_i(&K, "k", 0));
